@@ -1,5 +1,6 @@
 import ScVerif.C14.Props
 import ScVerif.C14.PropsAccept
+import ScVerif.C14.Gau
 import ScVerif.C14.Stamp
 /-!
 # C14 — the first write after a subscription, and write times
@@ -237,5 +238,55 @@ theorem C14_stamp_begin_stamp_and_filter_fails :
 /-- non-vacuity: the initial state satisfies the invariant, and the example server of Props.lean never identifies
 nothing with a value -/
 example : Inv (Stamp.init (5 : Nat)) := ⟨Nat.le_refl _, fun _ h => by simp [Stamp.init] at h⟩
+
+/-! ### the three-party window, any number of heartbeats
+
+`C14_gau_window_schedule` (PropsGau.lean) has ONE overlapping writer. The window family's resend+open case rests on the
+general fact: the re-validation of `GetAndUpdate` compares VALUES, so any number of writers that read and commit a
+request leaving the value as it is (clients re-sending the current state) between the held writer's read and its commit
+do not abort it - it is stored on top, with the value computed from what it read. -/
+
+section heartbeats
+variable {V U : Type} [DecidableEq V]
+
+/-- heartbeat writers: each reads and commits, one after the other -/
+def heartbeats (hs : List (Nat × U)) : List (GStep U) := hs.flatMap fun h => [.read h.1 h.2, .commit h.1]
+
+/-- **C14_gau_heartbeats_keep_held_writer.** While one writer `g` is held after its read on a register holding `c`,
+any number of other writers whose requests leave `c` as it is read and commit: afterwards the register still holds
+`c` and `g` is still the one writer in flight (only the log of answers has grown). -/
+theorem C14_gau_heartbeats_keep_held_writer (change : V → U → Except Nat V) (c : V) (g : GWriter V U)
+    (rest : List (GStep U)) (hs : List (Nat × U)) :
+    (∀ h, h ∈ hs → h.1 ≠ g.id ∧ change c h.2 = .ok c) →
+    ∀ L : List (Nat × Except Nat V), ∃ L',
+      grun change { cur := c, inflight := [g], log := L } (heartbeats hs ++ rest)
+        = grun change { cur := c, inflight := [g], log := L' } rest := by
+  induction hs with
+  | nil => intro _ L; exact ⟨L, by simp [heartbeats]⟩
+  | cons h hs ih =>
+    intro hh L
+    have h1 := hh h List.mem_cons_self
+    have hne : ¬ g.id = h.1 := fun e => h1.1 e.symm
+    obtain ⟨L', hL'⟩ := ih (fun x hx => hh x (List.mem_cons_of_mem _ hx)) (L ++ [(h.1, .ok c)])
+    refine ⟨L', ?_⟩
+    rw [← hL']
+    simp [heartbeats, List.flatMap_cons, grun, gstep, takeWriter, hne, h1.2]
+
+/-- **C14_gau_heartbeats_do_not_abort.** Writer `a` reads, ANY number of heartbeat writers read and commit, `a`
+commits: `a` is stored - the register ends on the value `a`'s pipeline computed from what it read. -/
+theorem C14_gau_heartbeats_do_not_abort (change : V → U → Except Nat V) (c vA : V) (uA : U) (a : Nat)
+    (hs : List (Nat × U)) (hA : change c uA = .ok vA)
+    (hh : ∀ h, h ∈ hs → h.1 ≠ a ∧ change c h.2 = .ok c) :
+    (grun change ({ cur := c } : GSt V U) (.read a uA :: (heartbeats hs ++ [.commit a]))).cur = vA := by
+  obtain ⟨L', hL'⟩ := C14_gau_heartbeats_keep_held_writer change c ⟨a, uA, c⟩ [.commit a] hs hh []
+  simp only [grun, gstep, List.nil_append]
+  rw [hL']
+  simp [grun, gstep, takeWriter, hA]
+
+/-- non-vacuity: two heartbeats (request 0 = leave the value), then the held writer's 7 is stored -/
+example : (grun (fun (c u : Nat) => (.ok (if u = 0 then c else u) : Except Nat Nat)) ({ cur := 5 } : GSt Nat Nat)
+    (.read 1 7 :: (heartbeats [(2, 0), (3, 0)] ++ [.commit 1]))).cur = 7 := by decide
+
+end heartbeats
 
 end ScVerif.C14
